@@ -146,6 +146,24 @@ func (w *World) ASCert(a, nb, na, k int) *pki.Cert {
 	return w.built[id]
 }
 
+// SignerIA is like Signer for an arbitrary ISD-AS of ISD 1 (topologies of the generator).
+func (w *World) SignerIA(ia addr.IA, nb, na int) trust.Signer {
+	key := fmt.Sprintf("ia/%s/%d/%d", ia, nb, na)
+	id, ok := w.ids[key]
+	if !ok {
+		id = w.next
+		w.next++
+		w.ids[key] = id
+		c := w.P.Cert(pki.Spec{Kind: "as", CN: "as", IA: ia.String(), SN: int64(1000 + id), NB: w.T(nb),
+			NA: w.T(na), KeyName: fmt.Sprintf("%s/as/%d", w.tag, id), Ver: id, Parent: w.CA})
+		w.built[id] = c
+		if _, err := w.DB.InsertChain(context.Background(), []*x509.Certificate{c.X, w.CA.X}); err != nil {
+			vt.Fatal("insert chain: %v", err)
+		}
+	}
+	return w.SignerFor(ia, w.built[id])
+}
+
 // Signer builds the REAL trust.Signer for the certificate (as trust.SignerGen would).
 func (w *World) Signer(a, nb, na, k int) trust.Signer {
 	c := w.ASCert(a, nb, na, k)
